@@ -38,7 +38,7 @@ RULE = ('cases: (a) agent collectors: seeded runs of 30 timesteps with a populat
 ASSUMPTIONS = ['file clause checked for the default clear_records_on_write=True and filemode "a" (the property\'s wording)',
                'per-agent / composite functions are pure', 'os._exit after step t stands for a crash between timesteps']
 FLOORS = {'quick': {'agent_steps': 10000, 'records_compared': 5000, 'empty_records_skipped': 500, 'unscheduled_steps': 2000,
-                    'mid_step_population_changes': 2000, 'composite_none': 1000, 'composite_dict': 1000, 'history_unchanged_checks': 8000,
+                    'mid_step_population_changes': 2000, 'composite_none': 1000, 'composite_dict': 1000, 'shared_composite_dict_calls': 1000, 'history_unchanged_checks': 8000,
                     'file_steps': 4900, 'flushes': 1500, 'conservation_checks': 4900, 'empty_collections': 800, 'opens_observed': 1500,
                     'killed_children': 20, 'default_priority_runs': 200,
                     'reach:Collectors.AgentCollector.collect': 6500, 'reach:Collectors.FileCollector.execute': 4100,
@@ -140,7 +140,8 @@ def case_agent(ctx, case):
     model.systems.add_system(Churn('before', model, before, pb))
     model.systems.add_system(Churn('after', model, after, pa))
     mode = rng.choice(['value', 'none_for_some', 'none_for_all'])
-    comp_mode = rng.choice([None, 'dict', 'sometimes', 'never'])
+    comp_mode = rng.choice([None, 'dict', 'sometimes', 'never', 'shared', 'shared'])
+    shared_summary = {}
     incl_t = rng.random() < 0.5
     start, end, freq = rng.choice([(0, sys.maxsize, 1), (rng.randint(0, 5), rng.randint(8, 40), rng.randint(1, 4)), (3, sys.maxsize, 2)])
 
@@ -158,6 +159,11 @@ def case_agent(ctx, case):
             return None
         if comp_mode == 'sometimes' and t % 2:
             return None
+        if comp_mode == 'shared':        # a running summary: the very same dict object, updated and returned every time
+            shared_summary['count'] = len(agents)
+            shared_summary['sum'] = sum(a[Val].v for a in agents.values())
+            ctx.count('shared_composite_dict_calls')
+            return shared_summary
         return {'count': len(agents), 'sum': sum(a[Val].v for a in agents.values())}
 
     kw = dict(includeTimstep=incl_t, frequency=freq, start=start, end=end)
